@@ -1,7 +1,7 @@
 """C09 - concurrent listeners and backend changes never corrupt or kill the proxy (Threads.tla; race detector + probe runs)."""
 import os
 import re
-from vlib import Infra
+from vlib import Infra, panic_site
 from proxyfam import report
 
 LEVEL = "exploration"
@@ -44,8 +44,8 @@ def run(ctx, args):
             sites.setdefault("+".join(files), blk)
         m = re.search(r"^(fatal error: .*|panic: .*)$", out, re.M)
         if m and not fatal:
-            frames = [f for f in re.findall(r"^\s+(\S+\.go):\d+", out, re.M) if "/src/" in f and "zz_vf_" not in f and "_test.go" not in f]
-            if frames:
+            ps = panic_site(out, ctx.srcdir())
+            if ps and ps[2]:
                 fatal = (m.group(1), out[-8000:])
             else:
                 raise Infra("stress driver died outside the repository's code:\n" + out[-4000:])
@@ -93,7 +93,8 @@ def probe(ctx, seed, q, lines):
         if "VF-INFRA" in out:
             raise Infra("stress driver self-check failed:\n" + out[-3000:])
         m = re.search(r"^(fatal error: .*|panic: .*)$", out, re.M)
-        if m:
+        ps = panic_site(out, ctx.srcdir())
+        if m and ps and ps[2]:
             p = os.path.join(ctx.scratch, "fatal_probe.txt")
             open(p, "w").write(out[-8000:])
             ctx.violation("the proxy died under concurrent load: %s" % m.group(1)[:200], files=[p], tag="fatal-probe")
